@@ -289,7 +289,13 @@ def wiring_item(item):
         """all P ranks concretely under the MPI simulator with the REAL getLayoutHandler (real Create_cart / Sub / layouts)"""
         from lib import simmpi
         real_layout = H.repo_import('pygyro.model.layout')
+        real_grid = H.repo_import('pygyro.model.grid')
         setups.getLayoutHandler = real_layout.getLayoutHandler
+
+        class GridNoFile(real_grid.Grid):          # the real Grid; only the file access of a restart is left out
+            def loadFromFile(self, *a, **k):
+                pass
+        setups.Grid = GridNoFile
 
         def rankfn(comm):
             kw = dict(comm=comm, plotThread=plot, drawRank=draw)
@@ -297,9 +303,14 @@ def wiring_item(item):
             with warnings.catch_warnings():
                 warnings.simplefilter('ignore')
                 if which == 'fresh':
-                    setups.setupCylindricalGrid('v_parallel', **kw)
+                    out = setups.setupCylindricalGrid('v_parallel', **kw)
                 else:
-                    setups.setupFromFile('nowhere', layout='v_parallel', **kw)
+                    out = setups.setupFromFile('nowhere', layout='v_parallel', **kw)
+                # the set-up is only usable if the layout changes of a time step work on it: every process calls them (the
+                # plot-only process holds an empty manager), a member that skips a collective leaves its partners waiting
+                g = out[0] if isinstance(out, tuple) else out
+                for lay_ in ('flux_surface', 'v_parallel', 'poloidal', 'v_parallel'):
+                    g.setLayout(lay_)
             return True
         try:
             simmpi.World(P).run(rankfn)
@@ -307,6 +318,7 @@ def wiring_item(item):
             return '%s: %s' % (type(e).__name__, str(e)[:200])
         finally:
             setups.getLayoutHandler = handler
+            setups.Grid = FakeGrid
         return None
 
     for ctx, (kind, val) in explore(body, timeout_ms=20000, index_cap=64):
